@@ -292,4 +292,13 @@ def handleBurst (toks : List String) : String :=
   | [_, _, _] => "ok"
   | _ => "bad-op"
 
+/-- e2e prediction for `stdiol <carrier> <mode> <size>` (the client's standard-streams listener: the same
+    HandleConnection → PipeData path as a socket listener, the application being a pair of pipes): all data, then
+    end-of-stream, in the direction the mode names -/
+def handleStdiol (toks : List String) : String :=
+  match toks with
+  | [_, mode, size] =>
+      if (mode = "echo" ∨ mode = "up" ∨ mode = "down") ∧ size.toNat?.getD 0 > 0 then "ok" else "bad-op"
+  | _ => "bad-op"
+
 end SA.Pipe
